@@ -391,6 +391,8 @@ func (v Value) AsCont() Cont {
 		return cont
 	case *messageHandlerCont:
 		return cont
+	case *failedCallCont:
+		return cont
 	default:
 		panic("value is not a continuation")
 	}
@@ -521,6 +523,8 @@ func (v Value) TryCont() (c Cont, ok bool) {
 	case *GoCont:
 		return cont, true
 	case *messageHandlerCont:
+		return cont, true
+	case *failedCallCont:
 		return cont, true
 	default:
 		return nil, false
